@@ -32,7 +32,7 @@ other_units = [
     ('in', '2.54 cm'),
     ('ft', '12 in'),
     # Volume:
-    ('L', '100 cm^3'),
+    ('L', '1000 cm^3'),
     # Time:
     ('min', '60 s'),
     ('h', '60 min'),
